@@ -72,3 +72,26 @@ Proof.
   - destruct (Hd eq_refl) as [i [r ->]]. cbn. rewrite !filter_app, F1, F2, F3. reflexivity.
   - cbn. rewrite !filter_app, F1, F2, F3. reflexivity.
 Qed.
+
+Lemma str_eqb_true a : forall b, str_eqb a b = true -> a = b.
+Proof. induction a as [|x a IH]; intros [|y b]; cbn; try discriminate; [reflexivity|]. intro H. apply andb_true_iff in H as [H1 H2]. apply N.eqb_eq in H1. apply IH in H2. subst. reflexivity. Qed.
+
+(* ensure_valid_identifier, for EVERY string: the result is not empty and consists of identifier characters only *)
+Lemma filter_valid_all s : forallb valid_ident_char (filter valid_ident_char s) = true.
+Proof. induction s as [|c r IH]; cbn [filter]; [reflexivity|]. destruct (valid_ident_char c) eqn:E; cbn [forallb]; [rewrite E; exact IH | exact IH]. Qed.
+
+Lemma kwlist_valid : forallb (fun k => forallb valid_ident_char k) kwlist = true.
+Proof. vm_compute. reflexivity. Qed.
+
+Theorem ensure_valid_identifier_chars s :
+  ensure_valid_identifier s <> [] /\ forallb valid_ident_char (ensure_valid_identifier s) = true.
+Proof.
+  unfold ensure_valid_identifier. destruct s as [|c r]; [split; [discriminate | reflexivity]|].
+  destruct (iskeyword (c :: r)) eqn:K.
+  - split; [destruct r; discriminate|]. rewrite forallb_app. cbn [forallb]. rewrite andb_true_r.
+    unfold iskeyword, mem_str in K. apply existsb_exists in K as [k [Hin Hk]]. apply str_eqb_true in Hk. subst k.
+    pose proof kwlist_valid as V. rewrite forallb_forall in V. exact (V _ Hin).
+  - match goal with |- context [match ?X with [] => _ | _ => _ end] => destruct X as [|x t] eqn:F end; cbv iota.
+    + split; [intro H; discriminate H | reflexivity].
+    + split; [intro H; discriminate H|]. rewrite <- F. apply filter_valid_all.
+Qed.
